@@ -39,7 +39,14 @@ def checked_vs_unchecked(rep, rule, prog, cg):
                 rep.ok(rule, key, 'fixed-width ops %s' % (fx,), y.loc())
             else:
                 rep.bad(rule, key, y.loc(), 'unchecked %s %s uses %s where the checked binary codec uses %s' % (side, n, fy, fx))
-    # *_len constants
+    len_passes_agree(rep, rule, prog, cg)
+
+
+def len_passes_agree(rep, rule, prog, cg):
+    """every length pass of the unchecked codec (the writer's and the READER's: generated keep-mode decoders add the
+    reader's *_len values up to cut a retained field out of the input) returns what the checked binary codec returns"""
+    ch = tp.Fam(prog, cg, 'binary')
+    un = tp.Fam(prog, cg, 'binary_unsafe')
     for i, lens in enumerate(un.LEN):
         for n in sorted(ch.LEN[0]):
             x, y = ch.LEN[0][n], lens.get(n)
